@@ -48,6 +48,7 @@ type Solver struct {
 	hardIDs     map[string]bool
 	HardBin     string // binary for one-shot queries (default z3-new)
 	FastMs    int
+	wdShort   bool
 	Restarts  int // incremental process replaced after it ignored its timeout
 }
 
@@ -265,8 +266,13 @@ func (s *Solver) CheckAssert(id string) Result {
 		s.Queries++
 		return s.checkHard()
 	}
+	// assertion queries are the large array-equality formulas the one-shot solver is meant
+	// for; the 400 ms incremental attempt is only a shortcut, so a process that ignores
+	// that budget is given 15 s, not minutes
 	s.send("(set-option :timeout 400)")
+	s.wdShort = true
 	r := s.checkFast()
+	s.wdShort = false
 	s.send(fmt.Sprintf("(set-option :timeout %d)", s.FastMs))
 	if r == Unknown {
 		s.hardIDs[id] = true
@@ -407,6 +413,13 @@ func (s *Solver) checkHard() Result {
 	return r
 }
 
+func (s *Solver) wdBudget() time.Duration {
+	if s.wdShort {
+		return 15 * time.Second
+	}
+	return time.Duration(s.FastMs)*time.Millisecond*4 + 180*time.Second
+}
+
 func (s *Solver) checkFast() Result {
 	start := time.Now()
 	s.send("(check-sat)")
@@ -419,7 +432,7 @@ func (s *Solver) checkFast() Result {
 	proc := s.cmd.Process
 	var wd *time.Timer
 	if s.Kind != "cvc5" {
-		wd = time.AfterFunc(time.Duration(s.FastMs)*time.Millisecond*4+180*time.Second, func() { wedged.Store(true); err := proc.Kill(); if os.Getenv("SYMGO_SLOW") != "" { fmt.Fprintln(os.Stderr, "    watchdog: killed wedged solver", proc.Pid, err) } })
+		wd = time.AfterFunc(s.wdBudget(), func() { wedged.Store(true); err := proc.Kill(); if os.Getenv("SYMGO_SLOW") != "" { fmt.Fprintln(os.Stderr, "    watchdog: killed wedged solver", proc.Pid, err) } })
 	}
 	for {
 		line := s.readLine()
